@@ -18,7 +18,7 @@ FailsDerivatives(o) ==
   \cup Check("variants-disagree-on-normal:" \o Tag(o), o.ncls <= TolAlg(o))
   \cup (IF o.crit \in Porous THEN Check("variants-disagree-on-porosity-derivative:" \o Tag(o), o.fcls <= TolAlg(o)) ELSE {})
   \cup Check("second-derivative-not-symmetric:" \o Tag(o), o.sym <= TolAlg(o))
-  \cup Check("normal-is-not-gradient:" \o Tag(o), o.fdok /\ o.fdn <= TolFDn(o))
+  \cup (IF FDValid(o) THEN Check("normal-is-not-gradient:" \o Tag(o), o.fdok /\ o.fdn <= TolFDn(o)) ELSE {})
   \cup Check("symmetry-group:" \o Tag(o), o.trok /\ o.trv <= TolAlg(o) /\ o.trn <= TolAlg(o))
   \cup (IF Homogeneous(o)
         THEN Check("euler-identity:" \o Tag(o), o.euler <= TolAlg(o) /\ o.euler1 <= TolAlg(o))
@@ -26,7 +26,7 @@ FailsDerivatives(o) ==
         ELSE {})
   \cup (IF SecondDerivativeRegular(o)
         THEN Check("symmetry-group-second-derivative:" \o Tag(o), o.trdn <= TolAlg(o))
-             \cup (IF UsesFDdn(o) THEN Check("second-derivative-is-not-gradient-of-normal:" \o Tag(o), o.fdok /\ o.fddn <= TolFDdn(o)) ELSE {})
+             \cup (IF UsesFDdn(o) /\ FDValid(o) THEN Check("second-derivative-is-not-gradient-of-normal:" \o Tag(o), o.fdok /\ o.fddn <= TolFDdn(o)) ELSE {})
              \cup (IF Homogeneous(o)
                    THEN Check("second-derivative-does-not-annihilate-stress:" \o Tag(o), o.dns <= TolAlg(o))
                         \cup Check("homogeneity-second-derivative:" \o Tag(o), o.homdn <= TolAlg(o))
